@@ -391,7 +391,10 @@ func (v *cachingValidator) validateJustification(ctx context.Context, valueKey *
 	var expectedVoteValueKey ECChainKey
 	if expectedPhases, ok := expectations[msg.Vote.Phase]; ok {
 		if expected, ok := expectedPhases[msg.Justification.Vote.Phase]; ok {
-			if msg.Justification.Vote.Round != expected.Round && expected.Round != math.MaxUint64 {
+			// Only DECIDE accepts a justification from any round; math.MaxUint64 is its
+			// marker and must not exempt other phases that happen to be at that round.
+			anyRound := msg.Vote.Phase == DECIDE_PHASE && expected.Round == math.MaxUint64
+			if msg.Justification.Vote.Round != expected.Round && !anyRound {
 				return fmt.Errorf("message %v has justification from wrong round %d", msg, msg.Justification.Vote.Round)
 			}
 
